@@ -970,6 +970,9 @@ func (n *node) Kill(pid gen.PID) error {
 		lib.VerifPoint(p, "kill:store")
 		atomic.StoreInt32(&p.state, int32(gen.ProcessStateTerminated))
 		return nil
+	case int32(gen.ProcessStateZombee):
+		// already killed: whoever put it into this state finalizes it
+		return nil
 	}
 
 	lib.VerifPoint(p, "kill:swapT")
